@@ -13,6 +13,8 @@ import zlib
 from common import main, budget
 
 VIS = [("none", "v0-40"), ("partial", "v40-60"), ("most", "v60-80"), ("full", "v80-100")]
+# how the visibility table spells its tokens: T4 style (token = level name), nuScenes style ("1".."4"), hashed; the level is what the annotation means
+VIS_TOKENS = {"t4": {t: t for t, _ in VIS}, "nuscenes": {t: str(i + 1) for i, (t, _) in enumerate(VIS)}, "hashed": {t: f"{i + 7:032x}" for i, (t, _) in enumerate(VIS)}}
 CATEGORIES = ["car", "truck", "bus", "bicycle", "motorbike", "pedestrian", "animal", "vehicle.car", "human.pedestrian.adult", "movable_object.barrier", "unknown"]
 ATTRIBUTES = ["vehicle.moving", "vehicle.parked", "pedestrian.standing", "cycle.with_rider"]
 
@@ -46,7 +48,8 @@ def write_dataset(root, case):
     T["map"] = [dict(category="semantic_prior", token=tok("map", 0), filename="maps/m.png", log_tokens=[tok("log", 0)])]
     T["category"] = [dict(token=tok("cat", i), name=n, description="") for i, n in enumerate(CATEGORIES)]
     T["attribute"] = [dict(token=tok("att", i), name=n, description="") for i, n in enumerate(ATTRIBUTES)]
-    T["visibility"] = [dict(token=t, level=l, description="") for t, l in VIS] if case.get("visibility", True) else []
+    vtok = VIS_TOKENS[case.get("vis_style", "t4")]
+    T["visibility"] = [dict(token=vtok[t], level=l, description="") for t, l in VIS] if case.get("visibility", True) else []
     T["sensor"] = [dict(token=tok("sen", 0), channel=case["lidar_channel"], modality="lidar"), dict(token=tok("sen", 1), channel="CAM_FRONT", modality="camera")]
     T["calibrated_sensor"] = [dict(token=tok("cal", 0), sensor_token=tok("sen", 0), translation=[0.0, 0.0, 0.0], rotation=[1.0, 0.0, 0.0, 0.0], camera_intrinsic=[]),
                               dict(token=tok("cal", 1), sensor_token=tok("sen", 1), translation=[1.5, 0.0, 1.2], rotation=quat(0.1), camera_intrinsic=[[1000, 0, 500], [0, 1000, 300], [0, 0, 1]])]
@@ -67,7 +70,7 @@ def write_dataset(root, case):
                                          filename=f"data/{chan}/{i}.{ext}", prev=tok("sdt", sd - 2) if i else "", next=tok("sdt", sd + 2) if i + 1 < n else "",
                                          sensor_modality="lidar" if k == 0 else "camera", channel=chan))
         for a in s["anns"]:
-            rec = dict(token=tok("ann", aidx), sample_token=tok("smp", i), instance_token=tok("ins", a["inst"]), visibility_token=a["vis"],
+            rec = dict(token=tok("ann", aidx), sample_token=tok("smp", i), instance_token=tok("ins", a["inst"]), visibility_token=vtok[a["vis"]],
                        attribute_tokens=[tok("att", j) for j in a["attrs"]], translation=[a["x"], a["y"], a["z"]], size=list(a["size"]), rotation=quat(a["yaw"]),
                        prev="", next="", num_lidar_pts=a["pts"], num_radar_pts=0, category_name=CATEGORIES[case["instances"][a["inst"]]])
             if a["inst"] in per_inst:
@@ -189,7 +192,7 @@ def gen(rng):
                 anns.append(dict(inst=j, x=round(p[0], 3), y=round(p[1], 3), z=round(p[2], 3), yaw=round(p[3], 3), size=(round(rng.uniform(0.3, 3), 2), round(rng.uniform(0.3, 12), 2), round(rng.uniform(0.5, 4), 2)),
                                  pts=rng.randint(0, 500), vis=rng.choice([v for v, _ in VIS]), attrs=sorted(rng.sample(range(len(ATTRIBUTES)), rng.randint(0, 2)))))
         samples.append(dict(t=t, ego=ego, anns=anns))
-    return dict(samples=samples, instances=instances, lidar_channel=rng.choice(["LIDAR_TOP", "LIDAR_CONCAT"]), visibility=rng.random() < 0.85,
+    return dict(samples=samples, instances=instances, lidar_channel=rng.choice(["LIDAR_TOP", "LIDAR_CONCAT"]), visibility=rng.random() < 0.85, vis_style=rng.choice(["t4", "nuscenes", "hashed"]),
                 tasks=rng.choice([["detection"], ["tracking"], ["sensing"], ["detection", "tracking"]]), merge=rng.random() < 0.4)
 
 
